@@ -240,6 +240,10 @@ def compare_sides(v: hc.MonitoredExecutor, n: hc.MonitoredExecutor, names, c15_n
             continue
         if r not in names and r not in rv:
             continue
+        if r.startswith("Q") and rv.get(r) is None:
+            # a Q register the program names somewhere but never wrote on the executed path: the transpiler may have borrowed it
+            # for the electron before its first textual use; nothing on this path (or later) can read it without writing it first
+            continue
         if rv.get(r) != rn.get(r) and r in names:
             return f"register {r}: vanilla run {rv.get(r)} vs transpiled run {rn.get(r)}"
     if v.arrays_snapshot(0) != n.arrays_snapshot(0):
